@@ -577,7 +577,7 @@ func c12Streams(rng *rand.Rand, kind string, n int) [][]byte {
 	for len(out) < n {
 		recs := c11Records(rng, kind, false)
 		stream, _, _ := sendAll(kind, recs)
-		switch rng.Intn(6) {
+		switch rng.Intn(7) {
 		case 0: // truncate
 			if len(stream) > 0 {
 				stream = stream[:rng.Intn(len(stream))]
@@ -616,6 +616,32 @@ func c12Streams(rng *rand.Rand, kind string, n int) [][]byte {
 					more, _, _ := sendAll(kind, [][]byte{randBytes(rng, 2, -1)})
 					stream = append(stream, more...)
 				}
+			}
+		case 6: // a header line about as long as a reader's buffer (4096 / 8192), possibly with a
+			// Content-Length look-alike sitting in the value right at that boundary
+			if kindClass(kind) == "hdr" {
+				body := randBytes(rng, 1+rng.Intn(5), -1)
+				name := "X-Pad: "
+				total := []int{4096, 4096, 4096, 8192, 4095, 4097}[rng.Intn(6)] + rng.Intn(5) - 2
+				look := ""
+				if rng.Intn(3) > 0 {
+					look = fmt.Sprintf("Content-Length: %d", len(body))
+				}
+				pad := total - len(name)
+				if rng.Intn(2) == 0 {
+					pad = []int{4096, 8192}[rng.Intn(2)] - len(name) // the look-alike starts exactly at the boundary
+				}
+				line := name + strings.Repeat("p", pad) + look + "\r\n"
+				real := ""
+				if rng.Intn(2) == 0 {
+					real = fmt.Sprintf("Content-Length: %d\r\n", len(body))
+				}
+				if rng.Intn(2) == 0 {
+					stream = []byte(line + real + "\r\n")
+				} else {
+					stream = []byte(real + line + "\r\n")
+				}
+				stream = append(stream, body...)
 			}
 		}
 		out = append(out, stream)
